@@ -19,6 +19,7 @@ func init() {
 	zzsv.Register("ZZ_C03_Literals", ZZ_C03_Literals)
 	zzsv.Register("ZZ_C03_LongPrograms", ZZ_C03_LongPrograms)
 	zzsv.Register("ZZ_C03_MixedOperands", ZZ_C03_MixedOperands)
+	zzsv.Register("ZZ_C03_UnaryLiterals", ZZ_C03_UnaryLiterals)
 }
 
 // zzSameObj: two results of the implementation are the same value.
@@ -477,5 +478,62 @@ func ZZ_C03_MixedOperands(sv *zzsv.T) {
 		o2, r2 := e2.Execute(obj)
 		zzDescribe(sv, "opt", o1, r1)
 		zzCompareTwo(sv, "C03.mixed", e1, e2, o1, o2, r1, r2, tr1, tr2, []string{"v"})
+	}
+}
+
+var zzC03Unary = []string{
+	"return -7001;", "return !7001;", "return -(-7001);", "return !(!7001);", "return -(7001 - 7002);",
+	"return !(7001 == 7002);", "return !(7001 < 7002);", "return !(7001 && 7002);", "return !(7001 || 7002);",
+	"return -(7001 + 7002) + 7001;", "return -7001 - 7002;", "return -\"s\";", "return !\"s\";", "return !\"\";",
+	"return -true;", "return !true;", "return -2.5;", "return !2.5;", "return -[1];", "return ![];",
+	"return √2.25;", "return √\"s\";", "return -(√2.25);", "return √(7001 - 7002);", "return !(-7001);",
+	"x = -7001; t(x); return !x;", "if (!(7001 == 7002)) { t(1); } return -7002;", "return (7001 == 7002) == !(7001 != 7002);",
+	"t(-7001, !7002); return 7001 - -7002;", "function f() { return -7001; } return f() + -7002;",
+}
+
+// ZZ_C03_UnaryLiterals: prefix operators over literals and constant
+// sub-expressions, optimized against unoptimized.
+func ZZ_C03_UnaryLiterals(sv *zzsv.T) {
+	src := zzC03Unary[sv.Choice("form", len(zzC03Unary))]
+	sv.Note("script", src+"   (7001, 7002 are symbolic literals)")
+	l1 := sv.Int64("L1")
+	l2 := sv.Int64("L2")
+	sv.Assume(l1 >= 0 && l1 <= 70000 && l2 >= 0 && l2 <= 70000)
+	if src == "return √(7001 - 7002);" {
+		// (floating-point square roots of symbolic values are beyond the
+		// solvers; differences that are perfect squares are the known finding
+		// recorded for ZZ_C03_Literals and are left to that harness)
+		sv.Assume((l1 == 70000 || l1 == 2) && (l2 == 0 || l2 == 7))
+	}
+	var tr1, tr2 []object.Object
+	mk := func(opt bool, tr *[]object.Object) (*Eval, bool) {
+		prog, ok := zzParseWithLits(sv, src, []int64{l1, l2})
+		if !ok {
+			return nil, false
+		}
+		e := New(src)
+		e.AddFunction("t", func(args []object.Object) object.Object {
+			*tr = append(*tr, args...)
+			return &object.Void{}
+		})
+		var perr error
+		okp := zzNoPanic(func() { perr = zzPrepareAST(e, prog, opt) })
+		sv.Assert("C03.unary.prepare.nopanic", okp)
+		return e, okp && perr == nil
+	}
+	e1, p1 := mk(true, &tr1)
+	e2, p2 := mk(false, &tr2)
+	sv.Assume(p2)
+	if !p1 {
+		_, r2 := e2.Execute(nil)
+		sv.Assert("C03.unary.prepare_error_only_for_failing_script", r2 != nil)
+		return
+	}
+	for run := 0; run < 2; run++ {
+		tr1, tr2 = nil, nil
+		o1, r1 := e1.Execute(nil)
+		o2, r2 := e2.Execute(nil)
+		zzDescribe(sv, "opt", o1, r1)
+		zzCompareTwo(sv, "C03.unary", e1, e2, o1, o2, r1, r2, tr1, tr2, []string{"x"})
 	}
 }
